@@ -608,6 +608,13 @@ pub fn exh_case(alphabet: &[BidiClass], n: usize, as_line: bool) -> Input {
 pub fn gen_case(prop: &str, rng: &mut Rng, n: usize, thorough: bool) -> (String, Input) {
     let _ = thorough;
     match prop {
+        "STAGE" => {
+            let (mode, inp) = bidi_case(rng, &MODES_ALL, true);
+            match inp {
+                Input::Bidi { enc, dir, text, ds, .. } => (mode, Input::Stage { enc, dir, text, ds }),
+                other => (mode, other),
+            }
+        }
         "XFULL" => ("exh-full".into(), exh_case(&EXH_FULL, n, false)),
         "XRED" => ("exh-reduced".into(), exh_case(&EXH_REDUCED, n, false)),
         "XCTRL" => ("exh-ctrl".into(), exh_case(&EXH_CTRL, n, false)),
